@@ -25,7 +25,7 @@ import yaql.standard_library.queries
 
 @specs.parameter('args', nullable=True)
 @specs.inject('delegate', yaqltypes.Delegate('to_list', method=True))
-def list_(delegate, *args):
+def list_(delegate, engine, *args):
     """:yaql:list
 
     Returns list of provided args and unpacks arg element if it's iterable.
@@ -43,7 +43,7 @@ def list_(delegate, *args):
     def rec(seq):
         for t in seq:
             if utils.is_iterator(t):
-                yield from rec(t)
+                yield from rec(utils.limit_iterable(t, engine))
             else:
                 yield t
     return delegate(rec(args))
@@ -51,7 +51,7 @@ def list_(delegate, *args):
 
 @specs.method
 @specs.parameter('collection', yaqltypes.Iterable())
-def flatten(collection):
+def flatten(collection, engine):
     """:yaql:flatten
 
     Returns an iterator to the recursive traversal of collection.
@@ -68,7 +68,7 @@ def flatten(collection):
     """
     for t in collection:
         if utils.is_iterable(t):
-            yield from flatten(t)
+            yield from flatten(utils.limit_iterable(t, engine), engine)
         else:
             yield t
 
@@ -1049,7 +1049,7 @@ def set_len(s):
 
 @specs.parameter('args', nullable=True)
 @specs.inject('delegate', yaqltypes.Delegate('to_set', method=True))
-def set_(delegate, *args):
+def set_(delegate, engine, *args):
     """:yaql:set
 
     Returns set initialized with args.
@@ -1067,7 +1067,7 @@ def set_(delegate, *args):
     def rec(seq):
         for t in seq:
             if utils.is_iterator(t):
-                yield from rec(t)
+                yield from rec(utils.limit_iterable(t, engine))
             else:
                 yield t
     return delegate(rec(args))
